@@ -39,8 +39,13 @@ def main():
             seeds = sys.argv[i + 1].split(",")
         if a == "--src":
             src = sys.argv[i + 1]
+    rnd = ""
+    if "--round" in sys.argv:
+        rnd = sys.argv[sys.argv.index("--round") + 1]
+        src = "/tmp/seedwork%s/out-%s/%s" % (rnd, pid, k)
     race = ["-race"] if "--race" in sys.argv or pid == "C20" else []
     wt = "/tmp/seedeval-%s-%s-%d" % (pid, k, os.getpid())
+    logname = "%s-%s" % (pid, k)
     rc, out = sh(["git", "-C", "/repo", "worktree", "add", "--detach", wt, "HEAD", "-q"])
     if rc != 0:
         print("cannot create worktree", out)
@@ -93,7 +98,7 @@ def main():
                 if rc == 1:
                     detected = True
         meta["detected"] = detected
-        out_dir = os.path.join(VERIF, "seeded", "%s-%s" % (pid, k))
+        out_dir = os.path.join(VERIF, "seeded", "%s-%s%s" % (pid, ("r%s-" % rnd) if rnd else "", k))
         os.makedirs(out_dir, exist_ok=True)
         for f in ("patch.diff", "demo_test.go", "notes.md"):
             if os.path.exists(os.path.join(src, f)):
